@@ -24,7 +24,7 @@ impl Gc {
     #[verifier::external_body]
     pub fn alloc_ignore_limit(&mut self, s: &str) -> (r: GcStrRef) ensures str_text(r) == s@ { unimplemented!() }
 }
-pub struct Stack { pub values: Vec<Value> }
+pub struct Stack { pub values: Vec<Value>, pub locked: bool }     // `locked`: the current extern frame holds a stack Lock
 impl Stack {
     #[verifier::external_body]
     pub fn push(&mut self, v: Variants) ensures final(self).values@ == old(self).values@.push(v.v) { unimplemented!() }
@@ -61,3 +61,28 @@ impl Pushable for String {
     #[verifier::external_body]
     fn vm_push(self, context: &mut ActiveThread) -> (r: Result<(), VmError>) { unimplemented!() }
 }
+
+// ---- the blanket AsyncPushable impl for synchronous values, and the two result wrappers
+impl ActiveThread {
+    // `context.stack().release_lock(lock)` (R-frame)
+    #[verifier::external_body]
+    pub fn release_lock(&mut self, lock: Lock)
+        ensures !final(self).ctx.stack.locked, final(self).ctx.stack.values@ == old(self).ctx.stack.values@
+    { unimplemented!() }
+}
+// any synchronous Pushable: what it does to the values is its own business, but it never touches the lock
+#[verifier::external_body] pub struct SyncValue { _p: () }
+impl SyncValue {
+    #[verifier::external_body]
+    pub fn vm_push(self, context: &mut ActiveThread) -> (r: Result<(), VmError>)
+        ensures final(context).ctx.stack.locked == old(context).ctx.stack.locked
+    { unimplemented!() }
+}
+pub enum RuntimeResult<T, E> { Return(T), Panic(E) }
+pub enum IO<T> { Value(T), Exception(String) }
+#[verifier::external_body] pub struct PanicPayload { _p: () }       // E: fmt::Display
+// R-err: Error::Message(format!("{}", err)) / Error::Message(exc)
+#[verifier::external_body]
+pub fn error_message_of(e: PanicPayload) -> VmError { unimplemented!() }
+#[verifier::external_body]
+pub fn error_message(s: String) -> VmError { unimplemented!() }
